@@ -256,6 +256,11 @@ def _scalar_op(op, a, b, node=None):
         if b == 0:
             return UNK
         return a % b
+    if op in (ast.BitOr, ast.BitAnd, ast.BitXor):
+        if isinstance(a, int) and isinstance(b, int):       # bools were converted to 0/1 above
+            r = (a | b) if op is ast.BitOr else (a & b) if op is ast.BitAnd else (a ^ b)
+            return bool(r) if r in (0, 1) and a in (0, 1) and b in (0, 1) else r
+        raise Unsupported('bitwise operator on non-integers', node)
     if op is ast.Pow:
         if isinstance(b, int) or (isinstance(b, Fraction) and b.denominator == 1):
             b = int(b)
@@ -1176,6 +1181,15 @@ class Machine:
                 return binop(ast.Sub, 0, v, e)
             if isinstance(e.op, ast.UAdd):
                 return v
+            if isinstance(e.op, ast.Invert):
+                if isunk(v):
+                    return UNK
+                if isinstance(v, Arr) and all(isinstance(x, bool) or isunk(x) for x in v.data):
+                    return Arr([UNK if isunk(x) else (not x) for x in v.data], v.shape)
+                if isinstance(v, bool):
+                    return not v
+                if isinstance(v, int):
+                    return ~v
             raise Unsupported('unary operator', e)
         if isinstance(e, ast.BoolOp):
             last = None
